@@ -203,14 +203,20 @@ def far_index_meshes(ndims):
                                                                   [[[200000, 200000, 0], [200003, 200003, 3]], [[200004, 200000, 0], [200005, 200001, 1]]]]}]
 
 
-def deep_corner_mesh():
-    """a properly tiled 3D plotfile whose finest (4th) level sits in the far corner: indices of 4 + 3 + 3 digits there,
-    i.e. FAB header lines longer than 100 bytes, as in any production run (domain 128 x 16 x 16 -> 1024 x 128 x 128)"""
-    return {"ndims": 3, "domain": [128, 16, 16],
-            "levels": [[[[0, 0, 0], [63, 15, 15]], [[64, 0, 0], [127, 15, 15]]],
-                       [[[252, 28, 28], [255, 31, 31]], [[248, 28, 28], [251, 31, 31]]],
-                       [[[508, 60, 60], [511, 63, 63]]],
-                       [[[1020, 124, 124], [1023, 127, 127]], [[1016, 124, 124], [1019, 127, 127]]]]}
+def deep_corner_mesh(nlev=7):
+    """a properly nested 3D hierarchy of `nlev` levels refined towards the far corner of a 16 x 2 x 2 domain: two 4^3
+    boxes per level; at level 6 the indices have 4 + 3 + 3 digits (1020..1023, 124..127), so that with >= 10 fields the
+    FAB header lines are longer than 100 bytes - as in any production run.  Tiny on disk; the finest uniform grid is
+    1024 x 128 x 128."""
+    levels = [[[[0, 0, 0], [7, 1, 1]], [[8, 0, 0], [15, 1, 1]]]]
+    for k in range(1, nlev):
+        hi = [16 * 2 ** k - 1, 2 * 2 ** k - 1, 2 * 2 ** k - 1]
+        lo = [hi[0] - 3, max(hi[1] - 3, 0), max(hi[2] - 3, 0)]
+        levels.append([[[lo[0] - 4, lo[1], lo[2]], [lo[0] - 1, hi[1], hi[2]]], [lo, hi]])
+    return {"ndims": 3, "domain": [16, 2, 2], "levels": levels}
+
+
+DEEP_FIELDS = ["f%d" % i for i in range(12)]
 
 
 # a few fixed meshes used as irrelevant context (rotated by VERIF_SEED)
